@@ -90,6 +90,31 @@ add("C04", True, "exploration",
     "active bits not explored.",
     "DESIGN.md section 5, C04")
 
+add("C03", True, "exploration",
+    "Hypothesis-generated machines/fault maps/placements/nets, oracle = "
+    "structural tree walk + independent strong-connectivity test",
+    "Routing trees returned for generated nets on generated machines "
+    "(weighted to 1xN/2xN tori, plus a clause with up to 45% dead chips) are "
+    "walked node by node: root, each chip and node once, every hop a working "
+    "link to the adjacent working chip, leaves exactly the sinks with their "
+    "cores or constrained routes. An independent strong-connectivity test "
+    "decides whether MachineHasDisconnectedSubregion is permitted.",
+    "Trusted: vf/gen/pr.py graph helpers. Interactions between repairs that "
+    "need maze-like fault maps are rare under random generation (the fixed "
+    "defect needed ~4e5 cases); the regression tier keeps that case.",
+    "DESIGN.md section 5, C03")
+add("C05", True, "exploration",
+    "Hypothesis-generated feasible placements and reservation layouts, "
+    "oracle = range predicate; completeness on the property's premise",
+    "Placements feasible by construction with global/per-chip reservations "
+    "(adjacent, gapped, at the ends), alignments, zero-size requests and "
+    "permuted orders are allocated; every range is checked for size, bounds, "
+    "alignment, disjointness from reservations and other vertices; with "
+    "reservations only at the ends and no alignment the call must succeed.",
+    "Trusted: the generator's feasibility bookkeeping. Resource quantities "
+    "are small integers.",
+    "DESIGN.md section 5, C05")
+
 
 def main():
     checks = []
